@@ -126,6 +126,11 @@ claim("C45", "exploration", "runtime monitor: conservation + breaker automaton o
 
 NOT_BUILT = "check not built yet in this session (see DESIGN.md §2 for the planned monitor); nothing is claimed for it"
 
+# thorough tier: number of consecutive seeds the driver runs (./check --rounds N merges the evidence); chosen so that a
+# thorough run of one check takes roughly 10-30 minutes on this machine
+ROUNDS = {"C03": 8, "C05": 10, "C06": 10, "C07": 10, "C08": 12, "C09": 8, "C11": 8, "C12": 5, "C13": 6, "C15": 5, "C19": 3, "C20": 5,
+          "C21": 6, "C23": 6, "C24": 8, "C25": 3, "C28": 4, "C29": 6, "C30": 6, "C33": 3, "C34": 2}
+
 checks = []
 for i in ids:
     if i not in C:
@@ -134,7 +139,7 @@ for i in ids:
     checks.append({
         "property_id": i,
         "quick_cmd": "./check %s --tier quick" % i,
-        "thorough_cmd": "./check %s --tier thorough" % i,
+        "thorough_cmd": "./check %s --tier thorough" % i + (" --rounds %d" % ROUNDS[i] if ROUNDS.get(i, 1) > 1 else ""),
         "evidence_file": "/verif/evidence/%s.json" % i,
         "replay_cmd_template": "./check %s --replay {path}" % i,
         "engine": "vh",
